@@ -189,7 +189,8 @@ def is_oracle(op):
 
 def compare(outdir, keep_samples=3):
     """diff impl.out and model.out line by line"""
-    res = {"lines": 0, "oracle_evals": 0, "oracle_fail": [], "model_diff": [], "bad_op": 0, "samples": [], "distinct": set()}
+    res = {"lines": 0, "oracle_evals": 0, "oracle_fail": [], "model_diff": [], "bad_op": 0, "samples": [], "distinct": set(), "unmaskable": set()}
+    prev_diff = False
     with open(os.path.join(outdir, "ops.txt")) as fo, open(os.path.join(outdir, "impl.out")) as fi, open(os.path.join(outdir, "model.out")) as fm:
         for op, imp, mod in zip(fo, fi, fm):
             op, imp, mod = op.rstrip("\n"), imp.rstrip("\n"), mod.rstrip("\n")
@@ -198,8 +199,16 @@ def compare(outdir, keep_samples=3):
             if orc: res["oracle_evals"] += 1
             else: res["distinct"].add(hashlib.blake2b(op.encode(), digest_size=8).digest())
             if mod == "bad-op" or imp == "bad-op": res["bad_op"] += 1
+            if not orc:
+                prev_diff = imp != mod
             if imp != mod:
-                (res["oracle_fail"] if orc else res["model_diff"]).append((op, imp, mod))
+                if orc:
+                    # an oracle failure right after a request on which model and implementation
+                    # DISAGREE is not an instance of a recorded (modelled) finding, whatever its class
+                    res["oracle_fail"].append((op, imp, mod))
+                    if prev_diff: res["unmaskable"].add(op)
+                else:
+                    res["model_diff"].append((op, imp, mod))
             elif len(res["samples"]) < keep_samples and not orc and res["lines"] % 97 == 1:
                 res["samples"].append({"op": op[:300], "impl": imp[:300], "model": mod[:300]})
         # length mismatch = driver or harness died mid-way
@@ -308,6 +317,7 @@ def main():
         totals = {"lines": 0, "oracle_evals": 0, "bad_op": 0, "cases": 0}
         distinct = set()
         oracle_fail, model_diff, samples, dist = [], [], [], {}
+        unmaskable = set()
         jobs = []
         for si, s in enumerate(spec.get("streams", [])):
             cfg = s.get(tier) or s.get("quick") or {}
@@ -333,7 +343,7 @@ def main():
             c = compare(r["dir"])
             totals["lines"] += c["lines"]; totals["oracle_evals"] += c["oracle_evals"]; totals["bad_op"] += c["bad_op"]
             distinct |= c["distinct"]
-            oracle_fail += c["oracle_fail"]; model_diff += c["model_diff"]
+            oracle_fail += c["oracle_fail"]; model_diff += c["model_diff"]; unmaskable |= c["unmaskable"]
             if len(samples) < 6: samples += c["samples"][:2]
             dp = os.path.join(r["dir"], "dist.json")
             if os.path.exists(dp):
@@ -343,7 +353,7 @@ def main():
         def split_known(items):
             new = []
             for op, imp, mod in items:
-                e = match_known(known, op, imp, mod)
+                e = None if op in unmaskable else match_known(known, op, imp, mod)
                 if e: known_seen.setdefault(e["id"], (e, op))
                 else: new.append((op, imp, mod))
             return new
